@@ -263,7 +263,7 @@ pub fn cli_codec(ctx: &mut Ctx) {
         }
     }
     // ---------- multipart file names (implementation-level oracles)
-    let stems = ["a", "archive", "my.backup", ".hidden", "a.part3", "x.tar", "dir.d/a", "/abs/p", "a.PNA", "name.part", "a.partx", "ünï", "a b"];
+    let stems = ["a", "archive", "my.backup", ".hidden", "a.part3", "x.tar", "dir.d/a", "/abs/p", "a.PNA", "name.part", "a.partx", "ünï", "a b", "backup.2024.01.tar", "a.b.c.d", "v1.2.3", ".a.b.c.d"];
     for stem in stems {
         for ext in ["", ".pna", ".PNA", ".Pna"] {
             let p = format!("{stem}{ext}");
@@ -285,8 +285,7 @@ pub fn cli_codec(ctx: &mut Ctx) {
                 }
                 let last = stem.rsplit('/').next().unwrap();
                 let plain_base = !last.contains(".part");
-                let dotless = !last.trim_start_matches('.').contains('.');
-                if plain_base && (!ext.is_empty() || dotless) {
+                if plain_base {
                     let r = cv::remove_part_n(&w);
                     if r.as_deref() != Some(p.as_str()) {
                         ctx.violation("C15", "a multipart file name does not decode back to the archive name", json!({"path":p,"n":n,"part":w,"removed":r}));
